@@ -87,7 +87,7 @@ def main():
         "hooks": {
             "guard": "GETTSIM_VERIF",
             "enable": "no hook exists in /repo: every seam (API call order, table contents, sys.monitoring line events, pathlib.Path.read_text/rglob, PYTHONHASHSEED) is reachable from outside the package; the guard name is reserved only",
-            "baseline_off_cmd": "cd /repo && /venv/bin/python -m pytest -ra -q -p no:cacheprovider --timeout=900 --continue-on-collection-errors -n 16",
+            "baseline_off_cmd": "cd /repo && /venv/bin/python -m pytest -ra -q -p no:cacheprovider --timeout=900 --continue-on-collection-errors",
             "source_commits": [],
             "add_only": True,
         },
